@@ -286,7 +286,7 @@ impl Check for C11 {
     }
     fn phases(&self, tier: Tier) -> Vec<Phase> {
         let (a, b, c, d) = match tier {
-            Tier::Quick => (20_000, 40_000, 20_000, 4_000),
+            Tier::Quick => (100_000, 200_000, 100_000, 20_000),
             Tier::Thorough => (600_000, 2_000_000, 1_000_000, 100_000),
         };
         let mut v = vec![
